@@ -28,7 +28,7 @@ pub fn warm_up() {
       }
     }
     let ext = crate::corpus::corpus(lang).ext;
-    files.push(SrcFile { path: format!("src/w{n}.{ext}"), text: gen_source(&mut rng, lang), hex: None, kind: "normal".into() });
+    files.push(SrcFile { path: format!("src/w{n}.{ext}"), text: gen_source(&mut rng, lang), hex: None, kind: "normal".into(), link_to: None });
   }
   let w = CliWorld {
     files,
@@ -105,7 +105,7 @@ pub fn main() -> i32 {
     let mut files = vec![];
     for i in 0..4 {
       let ext = crate::corpus::corpus(lang).ext;
-      files.push(SrcFile { path: format!("src/f{i}.{ext}"), text: gen_source(&mut rng, lang), hex: None, kind: "normal".into() });
+      files.push(SrcFile { path: format!("src/f{i}.{ext}"), text: gen_source(&mut rng, lang), hex: None, kind: "normal".into(), link_to: None });
     }
     let w = CliWorld {
       files,
